@@ -8,7 +8,6 @@ use lexer::T;
 /// Returns true if a PATH node was created.
 pub fn parse_path_inner(p: &mut Parser, always_wrap: bool) -> bool {
     let current = p.peek();
-    debug_assert!(matches!(current, T![ident] | T![::]));
 
     let has_namespace = matches!(current, T![::]);
     let should_wrap =
